@@ -278,7 +278,8 @@ class pdb2sql_base(object):
         else:
             if rmdb:
                 self.conn.close()
-                os.system('rm %s' % (self.sqlfile))
+                if os.path.isfile(self.sqlfile):
+                    os.remove(self.sqlfile)
             else:
                 self._commit()
                 self.conn.close()
